@@ -21,8 +21,8 @@ func vPriv(i int) (raw [64]byte, addr sdk.Address) {
 	return
 }
 
-// empty, ascii, unicode, and two long passphrases (70 bytes) that differ in their last byte only
-var vPass = []string{"", "p@ss-one", "pässwörd-two",
+// empty, ascii, the same with a trailing blank, and two long passphrases (70 bytes) that differ in their last byte only
+var vPass = []string{"", "p@ss-one", "p@ss-one ",
 	"0123456789012345678901234567890123456789012345678901234567890123456789",
 	"012345678901234567890123456789012345678901234567890123456789012345678X"}
 
@@ -155,14 +155,14 @@ func VerifC19_LazyKeybase() {
 	if _, err := src.ImportPrivateKeyObject(raw, "origin"); err != nil {
 		panic(err)
 	}
-	ep := []string{"export-pass", "stored-pass"}[zz.Choice("export_pass", 2)]
+	ep := []string{"export-pass", "pässwörd-stored"}[zz.Choice("export_pass", 2)]
 	armor, err := src.ExportPrivKeyEncryptedArmor(addr, "origin", ep, "hint")
 	if err != nil {
 		panic(err)
 	}
 	kb := New("keys", zz.TempDir("lazykb"))
 	dp := []string{ep, "wrong"}[zz.Choice("decrypt_with", 2)]
-	kp, err := kb.ImportPrivKey(armor, dp, "stored-pass")
+	kp, err := kb.ImportPrivKey(armor, dp, "pässwörd-stored")
 	zz.Assert("C19.lazy.import-needs-export-passphrase", (err == nil) == (dp == ep))
 	if err != nil {
 		_, gerr := kb.Get(addr)
@@ -171,14 +171,14 @@ func VerifC19_LazyKeybase() {
 		return
 	}
 	zz.Assert("C19.lazy.same-address", bytes.Equal(kp.GetAddress(), addr) && vListed(kb, addr))
-	p := []string{"stored-pass", "export-pass", ""}[zz.Choice("sign_with", 3)]
+	p := []string{"pässwörd-stored", "export-pass", ""}[zz.Choice("sign_with", 3)]
 	sig, pub, serr := kb.Sign(addr, p, []byte("msg"))
-	zz.Assert("C19.lazy.only-the-import-passphrase-opens-the-key", (serr == nil) == (p == "stored-pass"))
+	zz.Assert("C19.lazy.only-the-import-passphrase-opens-the-key", (serr == nil) == (p == "pässwörd-stored"))
 	if serr == nil {
 		zz.Assert("C19.lazy.signature-verifies", pub.VerifyBytes([]byte("msg"), sig))
 	}
 	derr := kb.Delete(addr, p)
-	zz.Assert("C19.lazy.delete-needs-right-passphrase", (derr == nil) == (p == "stored-pass"))
+	zz.Assert("C19.lazy.delete-needs-right-passphrase", (derr == nil) == (p == "pässwörd-stored"))
 	_, gerr := kb.Get(addr)
 	zz.Assert("C19.lazy.deleted-iff-delete-succeeded", (gerr != nil) == (derr == nil))
 	zz.Reach("C19.lazy.end")
